@@ -195,7 +195,19 @@ def property_from_data_contract(shape, idx):
                 and calls[0][1]["parent"].name == "data" and calls[0][1].get("data") is not None
         return all(c[0] != "_property_from_ref" for c in calls)
 
+    def const_builder(ctx):
+        """a plain schema (no enum, no union / reference wrapper, no type list) that declares a const -- ANY non-null const,
+        0, "" and false included -- is built as a ConstProperty"""
+        if not shape.get("const") or shape.get("enum") or shape.get("reference") or shape.get("type") == "list" or \
+                shape.get("comb") not in ("none", "allOf-inline"):
+            return True
+        calls = ctx.inputs["calls"]
+        return len(calls) == 1 and calls[0][0] == "ConstProperty"
+
     clauses = [
+        Clause("const-goes-to-the-const-builder", const_builder,
+               statement="a plain schema that declares a const (any non-null value, falsy ones included) is handed to "
+                         "ConstProperty.build", props=["C14"]),
         Clause("single-reference-passthrough", single_ref_passthrough,
                statement="single-member allOf/anyOf/oneOf around a $ref is resolved as that reference (wrapper as parent, so a "
                          "sibling default is kept); a bare $ref with parent None; nothing else goes to _property_from_ref",
@@ -207,7 +219,7 @@ def property_from_data_contract(shape, idx):
                                                              "caller's roots (a set even when none was given)", props=["C01", "C08"]),
         Clause("enum-style-by-config", enum_style, statement="EnumProperty is chosen iff not config.literal_enums", props=["C16"]),
     ]
-    return FnContract(f"{P}:property_from_data", [Case(f"shape{idx}", make, clauses, raises=(), props=["C05", "C01", "C08", "C16", "C02", "C17", "C20"])])
+    return FnContract(f"{P}:property_from_data", [Case(f"shape{idx}", make, clauses, raises=(), props=["C05", "C01", "C08", "C16", "C02", "C17", "C20", "C14"])])
 
 
 def inner_forwarding_contract(which):
